@@ -11,7 +11,7 @@ open Oryx Oryx.Kxps
                                                 → `<num>/<den>:<count>:<last>` for r10s,r30s,r300s joined by `,`
     a:<ns>:<cnt> sampleAverage(now) (hook: unguarded, unscaled) → `<num>/<den>`
     A:<ns>:<cnt> public Average() at that time  → `<num>/<den>` | `panic`
-    g            public 10s/30s/300s getters    → three `<num>/<den>` joined by `,` | `panic`
+    g            public 10s/30s/300s getters    → three (`<num>/<den>` | `panic`) joined by `,`
 -/
 
 def rateStr (r : Rate) : String := s!"{r.num}/{r.den}"
@@ -25,7 +25,7 @@ def resStr : Res Rate → String
 
 def getters (kbps : Bool) (m : Meter) : String :=
   let rs := if kbps then [m.kbps10s, m.kbps30s, m.kbps300s] else [m.rps10s, m.rps30s, m.rps300s]
-  if rs.any (·.isPanic) then "panic" else ",".intercalate (rs.map resStr)
+  ",".intercalate (rs.map resStr)
 
 def step (kbps : Bool) (m : Meter) (op : String) : Option (Meter × String) :=
   match op.splitOn ":" with
